@@ -200,7 +200,7 @@ class Result:
     pass
 
 
-def run_xcp(root, argv, cwd=None, plan=None, umask=0o022, timeout=120, trace=True, env_extra=None, binary=None, tag='t', nofile=None):
+def run_xcp(root, argv, cwd=None, plan=None, umask=0o022, timeout=120, trace=True, env_extra=None, binary=None, tag='t', nofile=None, cpus=None, ids=None):
     """Runs xcp with argv (list of str/bytes). With plan/trace, under sup. Returns Result(exit, cls, stderr, trace, final)."""
     r = Result()
     binary = binary or core.XCP
@@ -225,6 +225,10 @@ def run_xcp(root, argv, cwd=None, plan=None, umask=0o022, timeout=120, trace=Tru
         if nofile:
             import resource
             resource.setrlimit(resource.RLIMIT_NOFILE, (nofile, nofile))
+        if cpus:
+            os.sched_setaffinity(0, cpus)            # e.g. {0}: the run sees ONE available CPU
+        if ids:                                      # (uid, gid, [supplementary groups]): run as an unprivileged user
+            os.setgroups(ids[2]); os.setgid(ids[1]); os.setuid(ids[0])
     try:
         p = subprocess.run(cmd, cwd=cwd, env=env, stdout=subprocess.PIPE, stderr=subprocess.PIPE, timeout=timeout + 30, preexec_fn=pre)
         r.stderr = p.stderr.decode('utf-8', 'replace')[-4000:]
